@@ -943,6 +943,22 @@ pub fn many_terms_facts(r: &mut Prng, n: usize, with_std_roots: bool) -> FactSet
     for j in 0..5u32 {
         facts.omim.push(Rec { id: j + 1, name: format!("disease {j}"), terms: vec![v[(j as usize * 1000) % v.len()]] });
     }
+    // records on the terms that are stored first and last under the ascending / descending / as-generated orders, and on a
+    // few anywhere: information content and links of terms at storage positions around and beyond 65 535
+    let n = v.len();
+    let mut spots: Vec<usize> = vec![n - 1, n - 2, n - 40, 2, 3, 41];
+    for _ in 0..12 {
+        spots.push(r.usize_below(n));
+    }
+    for (j, k) in spots.into_iter().enumerate() {
+        let k = k.min(n - 1);
+        let rec = Rec { id: 100 + j as u32, name: format!("G{j}"), terms: vec![v[k]] };
+        match j % 3 {
+            0 => facts.genes.push(rec),
+            1 => facts.orpha.push(rec),
+            _ => facts.omim.push(rec),
+        }
+    }
     facts.normalise();
     facts
 }
